@@ -113,6 +113,12 @@ CHECKS = {
     "numbers is Index(i) iff the number is an integer in [0,2^32-1]. (c) value::number_to_string takes the integer/exponential/decimal "
     "route exactly on the ECMAScript ranges (1e21, 1e-6). Digit generation, toFixed/toPrecision/radix and string->number parsing are "
     "outside the claim.")),
+ 'C17': dict(design='section 3, C17', text=(
+    "Kernel claim: NULL-argument totality. From the MIR dump built with --features c-api, each of the 64 extern \"C\" tsrun_* entry points "
+    "is executed symbolically with every pointer parameter independently NULL or valid (helpers in src/ffi executed for real, everything "
+    "behind them abstracted): on every feasible path no caller-supplied pointer is dereferenced (a *p place, CStr::from_ptr, "
+    "slice::from_raw_parts, Box::from_raw, ptr::read/write) while it may still be NULL. Entry points whose exploration exceeds the path "
+    "budget are listed as not encoded. Lifetimes, use-after-free, string validity and re-entrancy are outside the claim.")),
  'C18': dict(design='section 3, C18', text=(
     "Whole property within bounds. Symbolic execution of the real MIR of ModulePath::{resolve,normalize_path,parent,is_bare,is_relative} "
     "for EVERY specifier and importer (present or absent) within the byte bounds (quick: spec<=6, importer<=6, <=3 slashes; thorough: "
